@@ -8,6 +8,7 @@ import (
 	"io"
 	"os"
 	"strconv"
+	"time"
 	"unicode"
 
 	"github.com/ProtonMail/go-crypto/openpgp"
@@ -89,11 +90,18 @@ func PGPClearSignWithKeyID(message io.Reader, keyFile, passphrase string, hexKey
 		return nil, fmt.Errorf("clear sign: %w", err)
 	}
 
+	// sign with the key that is selected for signing (a signing subkey, the
+	// key with the requested id), like the detached signatures do
+	signer := key.PrivateKey
+	if signingKey, ok := key.SigningKeyById(time.Now(), keyID); ok && signingKey.PrivateKey != nil {
+		signer = signingKey.PrivateKey
+	}
+
 	var signature bytes.Buffer
 
 	writeCloser, err := clearsign.Encode(
 		&signature,
-		key.PrivateKey,
+		signer,
 		&packet.Config{
 			SigningKeyId: keyID,
 			DefaultHash:  crypto.SHA256,
